@@ -7,6 +7,12 @@ use quote::ToTokens;
 use std::collections::BTreeMap;
 use syn::spanned::Spanned;
 
+/// name of an identifier without the raw-identifier prefix (`r#in` is the name `in`)
+fn idn(i: &syn::Ident) -> String {
+    let s = i.to_string();
+    s.strip_prefix("r#").map(|x| x.to_string()).unwrap_or(s)
+}
+
 fn ts(t: &impl ToTokens) -> String {
     t.to_token_stream().to_string().replace(' ', "")
 }
@@ -232,7 +238,7 @@ fn read_fields(fields: &syn::Fields) -> Vec<OutField> {
             .named
             .iter()
             .map(|f| OutField {
-                name: f.ident.as_ref().unwrap().to_string(),
+                name: idn(f.ident.as_ref().unwrap()),
                 ty: ts(&f.ty),
                 attrs: f.attrs.iter().map(|a| ts(a)).collect(),
                 public: matches!(f.vis, syn::Visibility::Public(_)),
@@ -251,7 +257,7 @@ fn read_fields(fields: &syn::Fields) -> Vec<OutField> {
 fn read_struct(s: &syn::ItemStruct) -> OutStruct {
     let (derives, repr_c, other_attrs) = attrs_info(&s.attrs);
     OutStruct {
-        name: s.ident.to_string(),
+        name: idn(&s.ident),
         derives,
         repr_c,
         other_attrs,
@@ -272,7 +278,7 @@ fn struct_lit_fields(e: &syn::Expr) -> Option<(String, Vec<(String, syn::Expr)>)
             let mut v = Vec::new();
             for f in &s.fields {
                 if let syn::Member::Named(id) = &f.member {
-                    v.push((id.to_string(), f.expr.clone()));
+                    v.push((idn(id), f.expr.clone()));
                 } else {
                     return None;
                 }
@@ -386,7 +392,7 @@ fn read_bind_group_impl(imp: &syn::ItemImpl, g: &mut OutGroup) {
                                                                 if let syn::Expr::Field(fe) = &c.args[0] {
                                                                     if ts(&fe.base) == "bindings" {
                                                                         if let syn::Member::Named(id) = &fe.member {
-                                                                            be.field = id.to_string();
+                                                                            be.field = idn(id);
                                                                         }
                                                                     }
                                                                 }
@@ -565,11 +571,11 @@ pub fn read(text: &str) -> Result<Out, String> {
     for it in &file.items {
         match it {
             syn::Item::Struct(s) => {
-                out.items.push(ItemInfo { kind: "struct", name: s.ident.to_string(), lines: lines_of(s.span()) });
+                out.items.push(ItemInfo { kind: "struct", name: idn(&s.ident), lines: lines_of(s.span()) });
                 out.structs.push(read_struct(s));
             }
             syn::Item::Const(c) => {
-                let name = c.ident.to_string();
+                let name = idn(&c.ident);
                 out.items.push(ItemInfo { kind: "const", name: name.clone(), lines: lines_of(c.span()) });
                 if name == "_" {
                     // const _: () = assert!(cond, "msg");
